@@ -129,6 +129,7 @@
 #include <bxdecay0/Te134.h>
 #include <bxdecay0/Th230.h>
 #include <bxdecay0/Th234.h>
+#include <bxdecay0/Ti46low.h>
 #include <bxdecay0/Ti48low.h>
 #include <bxdecay0/Tl207.h>
 #include <bxdecay0/Tl208.h>
@@ -2224,6 +2225,9 @@ namespace bxdecay0 {
       decay0_bb(prng_, event_, &bb_params_);
       if (trace) {
         std::cerr << "[debug] bxdecay0::genbbsub: Process de-excitation particles..." << std::endl;
+      }
+      if (name_starts_with(chnuclide_, "Ca46")) {
+        Ti46low(prng_, event_, bb_params_.levelE);
       }
       if (name_starts_with(chnuclide_, "Ca48")) {
         Ti48low(prng_, event_, bb_params_.levelE);
